@@ -443,6 +443,7 @@ ebpps_sketch<T,A> ebpps_sketch<T,A>::deserialize(const void* bytes, size_t size,
   auto pair = ebpps_sample<T, A>::deserialize(ptr, end_ptr - ptr, sd, allocator);
   ebpps_sample<T, A> sample = pair.first;
   ptr += pair.second;
+  check_state(k, cumulative_wt, wt_max, rho, sample.get_c());
 
   if (sample.has_partial_item() != bool(flags & HAS_PARTIAL_ITEM_MASK))
     throw std::runtime_error("sketch fails internal consistency check");
@@ -474,6 +475,7 @@ ebpps_sketch<T,A> ebpps_sketch<T,A>::deserialize(std::istream& is, const SerDe& 
   const double rho = read<double>(is);
 
   auto sample = ebpps_sample<T,A>::deserialize(is, sd, allocator);
+  check_state(k, cumulative_wt, wt_max, rho, sample.get_c());
 
   if (sample.has_partial_item() != bool(flags & HAS_PARTIAL_ITEM_MASK))
     throw std::runtime_error("sketch fails internal consistency check");
@@ -487,6 +489,21 @@ inline uint32_t ebpps_sketch<T, A>::check_k(uint32_t k)
   if (k == 0 || k > MAX_K)
     throw std::invalid_argument("k must be strictly positive and less than " + std::to_string(MAX_K));
   return k;
+}
+
+template<typename T, typename A>
+void ebpps_sketch<T, A>::check_state(uint32_t k, double cumulative_wt, double wt_max, double rho, double c) {
+  // update() and merge() rely on these to keep the sample size and its item array consistent
+  if (!(cumulative_wt > 0.0) || std::isinf(cumulative_wt)
+      || !(wt_max > 0.0) || std::isinf(wt_max)
+      || !(rho > 0.0) || std::isinf(rho)) {
+    throw std::invalid_argument("Possible corruption: cumulative weight, maximum weight and rho "
+      "of a non-empty sketch must be positive and finite");
+  }
+  if (!(c > 0.0) || c >= k + 1.0) {
+    throw std::invalid_argument("Possible corruption: C must be positive and not greater than k. Found: "
+      + std::to_string(c));
+  }
 }
 
 template<typename T, typename A>
